@@ -76,7 +76,8 @@ EXPECTED_PROBES = {
             'loaded_under_second_listing_order', 'both_names_of_a_family_present',
             'unreadable_attribute_file', 'traces_read', 'params_name_a_missing_raw_file',
             'traces_read_with_channel_selector',
-            'alf_times_without_samples', 'alf_times_single_precision'],
+            'alf_times_without_samples', 'alf_times_single_precision',
+            'alf_seconds_in_another_clock'],
     'C05': ['sparse', 'dense', 'neighbourhood_bites', 'multi_shank', 'threshold_bites',
             'explicit_channels', 'minus_one_column', 'signal_free_column', 'all_zero_template',
             'queried_after_reload', 'wmi_file_left_by_earlier_load'],
@@ -158,6 +159,8 @@ def gen(rng, prop, tier):
             cfg['dir_name'] = rng.choice(['mouse[12]', 'run*', 'a?b', 'x[!y]z', 'probe{0,1}'])
         if rng.random() < 0.08:
             cfg['params_symlink'] = True
+        if cfg['names']['times'] == 'alf' and p.get('samples_file') and rng.random() < 0.4:
+            cfg['alf_clock'] = [rng.choice([0.0, 12.5, 3600.25]), rng.choice([0.0, 1e-6, -3e-5])]
         if any(po['kind'] == 'nan_column' for po in cfg['poison']) and rng.random() < 0.6:
             # ... in a curated dataset: the loader computes cluster waveforms from the templates
             cfg['curation'] = world.gen_curation_ops(rng, rng.randint(1, 3))
@@ -247,6 +250,10 @@ def gen(rng, prop, tier):
                 cfg['nloc_tf'] = rng.randint(2, nt)
             if p['tfeatures'] and rng.random() < 0.2:
                 cfg['tfeat_nonfinite'] = [rng.random() for _ in range(rng.randint(1, 4))]
+            if p['tfeatures'] and rng.random() < 0.15:
+                # a template-feature store WITHOUT its column table, narrower or wider than the
+                # number of templates
+                cfg['tf_no_ind'] = rng.choice([max(2, nt - 2), nt, nt + 2])
             ops = [{'op': 'load'}]
             for _ in range(rng.randint(1, 8)):
                 r = rng.random()
@@ -349,6 +356,8 @@ def gen(rng, prop, tier):
         cfg['dtypes']['times'] = rng.choice(['uint64', 'uint64', 'int64', 'int32', 'uint32'])
         if p['raw'] and rng.random() < 0.1:
             cfg['decoy_cwd'] = True
+        if rng.random() < 0.08:
+            cfg['dir_name'] = rng.choice(['mouse[12]', 'run*', 'a?b', 'x[!y]z', 'session[1]'])
         if rng.random() < 0.08:
             # a single template owns every spike (the others are stored but unused)
             keep = rng.randrange(nt)
@@ -578,6 +587,22 @@ class _FailingTraces(object):
         return self._real[item]
 
 
+def _map_is_backed(a):
+    """False when `a` is a memory map whose file is now SHORTER than the map (the file was
+    rewritten under a session that kept its old map): touching such a map kills the interpreter
+    with a bus error instead of giving a verdict."""
+    base = a
+    while base is not None and not isinstance(base, np.memmap):
+        base = getattr(base, 'base', None)
+    if base is None or getattr(base, 'filename', None) is None:
+        return True
+    try:
+        need = int(base.offset) + int(base.nbytes)
+        return os.path.getsize(str(base.filename)) >= need
+    except OSError:
+        return False
+
+
 def _win_close(got, exp, eps):
     """Window comparison: finite values within a few ulps of the recording's float type,
     non-finite samples (saturated or corrupt samples of a float recording) reproduced as they
@@ -798,6 +823,10 @@ class DatasetWorld(object):
             eq('spike_times', m.spike_times, t64, exact=False)
             # the reference adopts the admissible outcome for the rest of the run
             g.samples = got.astype(np.int64)
+        elif getattr(g, 'alf_seconds', None) is not None:
+            ctx.probe('alf_seconds_in_another_clock')
+            eq('spike_samples', m.spike_samples, g.samples)
+            eq('spike_times', m.spike_times, g.alf_seconds, exact=False)
         else:
             eq('spike_samples', m.spike_samples, g.samples)
             eq('spike_times', m.spike_times, g.samples / g.sr, exact=False)
@@ -1283,6 +1312,21 @@ class DatasetWorld(object):
         sw = m.spike_waveforms
         if np.asarray(sw.spike_ids).ndim == 0:
             return
+        # the store as it is ON DISK (what the session keeps in memory after an export is part of
+        # the code under test)
+        try:
+            disk_ids = np.load(self.dir / '_phy_spikes_subset.spikes.npy')
+            disk_chans = np.load(self.dir / '_phy_spikes_subset.channels.npy')
+        except Exception:
+            return
+        if disk_ids.ndim != 1 or disk_chans.ndim != 2 or len(disk_ids) != len(disk_chans):
+            return
+        ctx.check(_aeq(np.asarray(sw.spike_ids), disk_ids)
+                  and _aeq(np.asarray(sw.spike_channels), disk_chans),
+                  'store-in-memory-differs-from-store-on-disk',
+                  lambda: {'ids': _desc(sw.spike_ids), 'channels': _desc(sw.spike_channels),
+                           'on_disk': [list(disk_ids.shape), list(disk_chans.shape)]})
+        sw = type('Store', (), {'spike_ids': disk_ids, 'spike_channels': disk_chans})()
         stored = [int(s) for s in np.asarray(sw.spike_ids) if g.stemplates[int(s)] == t]
         if len(stored) < 2:
             return
@@ -1773,6 +1817,10 @@ class DatasetWorld(object):
         ids = np.asarray(sw.spike_ids)
         chs = np.asarray(sw.spike_channels)
         W = sw.waveforms
+        if not _map_is_backed(W):
+            ctx.fail('store-waveform-differs-from-raw-window',
+                     {'why': 'the session still maps a waveform file that has since been '
+                             'rewritten shorter: its store no longer matches the files'})
         if ids.ndim == 0:
             # a store holding exactly one spike: the loader squeezes that singleton dimension
             # (DESIGN.md 5.2, degenerate sizes are outside the claimed domain)
@@ -1805,6 +1853,10 @@ class DatasetWorld(object):
             ctx.skipped['single-spike-store-squeezed'] += 1
             return
         eps = float(np.finfo(self.A.dtype).eps) if self.A.dtype.kind == 'f' else 0.0
+        if sw is not None and not _map_is_backed(sw.waveforms):
+            ctx.fail('model-waveform-differs-from-raw-window',
+                     {'why': 'the session still maps a waveform file that has since been '
+                             'rewritten shorter'})
         if getattr(self, 'raw_removed', False) and sw is None:
             ctx.fail('store-not-loaded', {'why': 'raw recording removed, intact store present'})
         if sw is not None and (rs.rand() < 0.7 or getattr(self, 'raw_removed', False)):
